@@ -1,5 +1,5 @@
 """props/C19.py — descriptor for property C19 (online planners respect the horizon and keep a
-consistent tree): MCTS and POMCP driven through a scripted, logging generative model."""
+consistent tree): MCTS (fixed and variable action space), POMCP and rPOMCP driven through a scripted, logging generative model."""
 REPO_SRCS = ["src/Seeder.cpp"]
 AXIOM_ALLOW = []
 CASE_TIMEOUT = 20
@@ -12,7 +12,7 @@ TRUSTED_BASE = [
     "unsigned/size_t modelled as unbounded nat; unordered_map modelled as an association list with unique keys",
 ]
 ASSUMPTIONS = [
-    "fixed action space A >= 1 (MCTS with a variable action space getA(s) is not modelled)",
+    "the theorems are stated for a fixed action space A >= 1; MCTS with a variable action space getA(s) is covered by the same machine (correspondence) and the oracle; rPOMCP is covered at oracle level only",
     "the first call of a history is sampleAction(s|b, horizon); sampleAction(a, ., h) is called with a < A",
     "doubles: V compared within 1e-9 (the mean is not dyadic); N, particles, simulation boundaries compared exactly",
 ]
@@ -26,8 +26,10 @@ def q(n, d):
     return "%d/%d" % (n, d) if d != 1 else "%d" % n
 
 
-def gen_model(rng):
-    S = rng.choice([1, 2, 2, 3, 3, 4])
+def gen_model(rng, iso0=False):
+    """iso0: state 0 is never produced by the model (S >= 2) - it is impossible under every history
+    whose initial belief gives it no mass."""
+    S = rng.choice([2, 3, 3, 4] if iso0 else [1, 2, 2, 3, 3, 4])
     A = rng.choice([1, 2, 2, 3])
     O = rng.choice([1, 2, 2, 3])
     K = rng.choice([1, 2, 2, 3])
@@ -37,7 +39,7 @@ def gen_model(rng):
     style = rng.choice(["int", "int", "dyadic", "neg", "pos"])
     tab = []
     for _ in range(S * A * K):
-        s1 = rng.randrange(S); o = rng.randrange(O)
+        s1 = rng.randrange(1, S) if iso0 else rng.randrange(S); o = rng.randrange(O)
         if style == "int": r = q(rng.randint(-4, 4), 1)
         elif style == "dyadic": r = q(rng.randint(-12, 12), 4)
         elif style == "neg": r = q(rng.randint(-5, -1), 1)
@@ -59,7 +61,60 @@ def next_h(rng, h):
     return rng.choice([0, max(0, h - 2)])
 
 
+def gen_mctsv(rng):
+    """MCTS on a model with a variable action space getA(s) in 1..A."""
+    head, S, A, O = gen_model(rng)
+    if A < 2: return None
+    acnt = [rng.randint(1, A) for _ in range(S)]
+    if rng.random() < 0.5:      # action sets that shrink along the state order
+        acnt = sorted(acnt, reverse=True)
+    iters = rng.choice([1, 2, 3, 5, 8, 12, 20, 30])
+    expl = rng.choice(["0", "1/2", "1", "5", "100"])
+    h = rng.choice([2, 3, 3, 4, 5, 6])
+    cur = rng.randrange(S)
+    ops = ["F %d %d" % (cur, h)]
+    for _ in range(rng.choice([0, 1, 1, 2])):
+        h = next_h(rng, h)
+        a = rng.randrange(acnt[cur]); cur = rng.randrange(S)
+        ops.append("A %d %d %d" % (a, cur, h))
+    return "mctsv %s %s %d %s %d %s" % (head, " ".join(map(str, acnt)), iters, expl, len(ops), " ".join(ops))
+
+
+def gen_rpomcp(rng):
+    iso0 = rng.random() < 0.5
+    head, S, A, O = gen_model(rng, iso0)
+    entropy = rng.choice([0, 0, 1])
+    bsize = rng.choice([1, 2, 3, 5, 8])
+    iters = rng.choice([1, 3, 8, 15, 25, 40, 60])
+    expl = rng.choice(["0", "1/2", "1", "5", "100"])
+    k = rng.choice([1, 2, 5, 500])
+
+    def belief():
+        w = [rng.choice([0, 1, 1, 2, 3]) for _ in range(S)]
+        if iso0: w[0] = 0
+        if sum(w) == 0: w[S - 1] = 1
+        tot = sum(w); p = 1
+        while p < tot: p *= 2
+        w[w.index(max(w))] += p - tot
+        return " ".join(q(x, p) for x in w)
+    h = gen_horizon(rng)
+    ops = ["F %s %d" % (belief(), h)]
+    for _ in range(rng.choice([0, 1, 1, 2, 3])):
+        h = next_h(rng, h)
+        if rng.random() < 0.1:
+            ops.append("F %s %d" % (belief(), h))
+        else:
+            ops.append("A %d %d %d" % (rng.randrange(A), rng.randrange(O), h))
+    return "rpomcp %d %s %d %d %s %d %d %s" % (entropy, head, bsize, iters, expl, k, len(ops), " ".join(ops))
+
+
 def gen_case(rng):
+    r = rng.random()
+    if r < 0.2:
+        c = gen_mctsv(rng)
+        if c: return c
+    elif r < 0.4:
+        return gen_rpomcp(rng)
     head, S, A, O = gen_model(rng)
     iters = rng.choice([0, 1, 2, 3, 5, 8, 12, 20, 30, 40])
     expl = rng.choice(["0", "1/2", "1", "5", "100"])
